@@ -5,16 +5,16 @@ ROOT = os.path.dirname(os.path.dirname(os.path.abspath(__file__)))
 
 # id -> (technique, level text, level note, design ref)
 CHECKS = {
- "C01": ("proptest over generated volume specs (header + bzip2 LDM records of an independently encoded message stream); oracle = the spec as independent record + run-length grouping model + C07 closed forms",
-         "Hundreds (quick) to tens of thousands (thorough) of generated volumes - single radial, single elevation, SAILS-like revisits, final run of one, 720-radial sweeps, metadata frames anywhere, arbitrary record splits, 8/16-bit moments - plus full-size 14x720 volumes; File::scan must return exactly the encoded radials in order, grouped in maximal runs, with the first VOL block's VCP. Sampled, not exhaustive.",
+ "C01": ("proptest over generated volume specs (thorough: + structured libFuzzer target) (header + bzip2 LDM records of an independently encoded message stream); oracle = the spec as independent record + run-length grouping model + C07 closed forms",
+         "Hundreds (quick) to tens of thousands (thorough) of generated volumes - single radial, single elevation, SAILS-like revisits, final run of one, 720-radial sweeps, metadata frames anywhere, arbitrary record splits, 8/16-bit moments - plus full-size 14x720 volumes; File::scan must return exactly the encoded radials in order, grouped in maximal runs, with the first VOL block's VCP. Sampled, not exhaustive. The thorough tier adds a structured coverage-guided libFuzzer campaign (volume_scan: fuzzer bytes decoded into a generated case via arbitrary::Unstructured, the same oracle inside the target).",
          "Trusted: the independent wire/container encoder, libbz2 as compressor, the run-length model. Record splits only at message boundaries; every record bzip2-compressed, as the statement prescribes.",
          "DESIGN.md §4 C01"),
- "C02": ("enumeration of all 1024 block subsets with fingerprint values + proptest over layouts/values; oracle = independent encoder byte offsets, per field",
-         "Every block subset is covered with values that differ per field (so transposed same-typed fields are visible) under several pointer/physical orders, gaps and decode offsets; random messages add arbitrary values (floats by bit pattern), gates to 65535 and both word sizes. ~90 fields compared individually.",
+ "C02": ("enumeration of all 1024 block subsets with fingerprint values + proptest over layouts/values (thorough: + structured libFuzzer target); oracle = independent encoder byte offsets, per field",
+         "Every block subset is covered with values that differ per field (so transposed same-typed fields are visible) under several pointer/physical orders, gaps and decode offsets; random messages add arbitrary values (floats by bit pattern), gates to 65535 and both word sizes. ~90 fields compared individually. The thorough tier adds a structured coverage-guided libFuzzer campaign (type31_fidelity: fuzzer bytes decoded into a generated case via arbitrary::Unstructured, the same oracle inside the target).",
          "Trusted: independent encoder offsets (type-31 header 32 B, VOL 52, ELV 12, RAD 28, moment header 28 + gates*word/8). Duplicate names / overlapping blocks are C04's domain.",
          "DESIGN.md §4 C02"),
- "C03": ("proptest over message sequences (all 256 type codes, contiguous type-31) with a truncation sweep; oracle = per-message spec comparison, equality with stand-alone decoding, boundary model for cuts",
-         "Streams of 0..600 messages; N in = N out, message i equals its stand-alone decoding and its spec; every cut point (small streams) or +-40 bytes around boundaries plus random points must give exactly k messages inside a header fragment and an error inside a body; same through Record::messages.",
+ "C03": ("proptest over message sequences (all 256 type codes, contiguous type-31) with a truncation sweep (thorough: + structured libFuzzer target); oracle = per-message spec comparison, equality with stand-alone decoding, boundary model for cuts",
+         "Streams of 0..600 messages; N in = N out, message i equals its stand-alone decoding and its spec; every cut point (small streams) or +-40 bytes around boundaries plus random points must give exactly k messages inside a header fragment and an error inside a body; same through Record::messages. The thorough tier adds a structured coverage-guided libFuzzer campaign (stream_framing: fuzzer bytes decoded into a generated case via arbitrary::Unstructured, the same oracle inside the target).",
          "Trusted: independent encoder and the C02/C10/C11/C12 comparators. Type-31 layouts contiguous with finite floats, as the statement restricts.",
          "DESIGN.md §4 C03"),
  "C04": ("structure-aware mutation (proptest) + exhaustive short lengths + random bytes, thorough tier adds coverage-guided libFuzzer; oracle = catch_unwind, counting allocator bound, per-call timer around every decode entry point",
@@ -57,8 +57,8 @@ CHECKS = {
          "Bodies with 0..255 segments x 360 azimuths x 0..25 (some 65535) zones decode to exactly the encoded structure; every truncation point near the start, around segment boundaries and at random positions must be an error.",
          "Segment numbering base 0 or 1 admitted; reached through the direct entry point only.",
          "DESIGN.md §4 C13"),
- "C14": ("proptest over message lists decoded from generated specs; oracle = reference grouping/counting model on the decoded messages' public fields",
-         "Lists of up to ~500 messages interleaving radial runs, status, VCP and opaque messages: tiling, counts, maximal runs, singleton status/VCP groups, continuation flag, data-type counts, first/last azimuth and time, time range, VCP set, info structs.",
+ "C14": ("proptest over message lists decoded from generated specs (thorough: + structured libFuzzer target); oracle = reference grouping/counting model on the decoded messages' public fields",
+         "Lists of up to ~500 messages interleaving radial runs, status, VCP and opaque messages: tiling, counts, maximal runs, singleton status/VCP groups, continuation flag, data-type counts, first/last azimuth and time, time range, VCP set, info structs. The thorough tier adds a structured coverage-guided libFuzzer campaign (summary_model: fuzzer bytes decoded into a generated case via arbitrary::Unstructured, the same oracle inside the target).",
          "Coded fields kept inside their documented domains (the statement's precondition).",
          "DESIGN.md §4 C14"),
  "C15": ("exhaustive enumeration of all bucket shapes (sizes 1..=64 and 999) through a guarded wrapper of the search + proptest over shapes against a loopback S3 simulator; oracle = newest populated directory, request log",
